@@ -2,6 +2,7 @@ package main
 
 import (
 	"fmt"
+	"go/constant"
 	"go/token"
 	"go/types"
 
@@ -204,7 +205,7 @@ func ruleSatOverflow(c *Ctx, r *R) {
 		}
 		return false
 	}
-	nA, nB := 0, 0
+	nA, nB, nC := 0, 0, 0
 	for _, fn := range c.AllSrcFuncs("") {
 		ord := map[string]int{}
 		for _, b := range fn.Blocks {
@@ -279,6 +280,30 @@ func ruleSatOverflow(c *Ctx, r *R) {
 					}
 					src, ok := x.X.(*ssa.Call)
 					if !ok || src.Call.StaticCallee() == nil || src.Call.StaticCallee().Name() != "toIntegerFloat" {
+						// any other float64: the same rule (census of every float-to-integer conversion of the package)
+						nC++
+						base := fmt.Sprintf("%s:int(float64)", ssaFuncName(fn))
+						ord[base]++
+						key := fmt.Sprintf("%s#%d", base, ord[base])
+						site := c.Pos(instrPos(x))
+						how := floatInRange(fn, x.X, x, 0, bounded)
+						if how == "" {
+							how = clippedParameter(c, fn, x.X, bounded)
+						}
+						switch {
+						case how != "":
+							r.ok(key, site, how)
+						case roundTripTested(x):
+							r.ok(key, site, "the result is converted back and compared with the operand: an out-of-range value fails the comparison")
+						case bounded(fn, x.X, x, true) && bounded(fn, x.X, x, false):
+							r.ok(key, site, "a two-sided range test dominates the conversion")
+						default:
+							if why, ok := satOverflowReviewed[base]; ok {
+								r.ok("reviewed:"+key, site, why)
+								continue
+							}
+							r.bad(key, site, fmt.Sprintf("%s converts a float64 to %s with no range test on the path and no reduction (math.Mod by a constant) before it: for a finite value outside the target range the result is implementation-defined in Go (0x8000000000000000 on amd64, saturation on arm64) - ToUint32(2^63 + 2048) must be 2048, `Array.prototype.push.call({length: 2**63+2048}, 'x')` writes index 0", ssaFuncName(fn), tb.Name()))
+						}
 						continue
 					}
 					nB++
@@ -299,5 +324,172 @@ func ruleSatOverflow(c *Ctx, r *R) {
 			}
 		}
 	}
-	r.ok("census", "-", fmt.Sprintf("%d arithmetic uses of saturated integers, %d integer conversions of toIntegerFloat results examined", nA, nB))
+	r.ok("census", "-", fmt.Sprintf("%d arithmetic uses of saturated integers, %d integer conversions of toIntegerFloat results and %d other float64-to-integer conversions examined", nA, nB, nC))
+}
+
+// floatInRange: the float64 value is in the range of every 64-bit integer type by construction: the remainder of
+// math.Mod by a constant, a conversion from an integer, a constant, or sums/products of such with constants are NOT
+// accepted (they can grow) - only the direct forms.
+func floatInRange(fn *ssa.Function, v ssa.Value, at ssa.Instruction, d int, bounded func(*ssa.Function, ssa.Value, ssa.Instruction, bool) bool) string {
+	if d > 4 {
+		return ""
+	}
+	switch y := v.(type) {
+	case *ssa.Const:
+		return "constant operand"
+	case *ssa.Convert:
+		if fb, ok := y.X.Type().Underlying().(*types.Basic); ok && fb.Info()&types.IsInteger != 0 {
+			return "the operand is an integer converted to float64: within range of the wider integer types"
+		}
+	case *ssa.Call:
+		if callee := y.Call.StaticCallee(); callee != nil && callee.Pkg != nil && callee.Pkg.Pkg.Path() == "math" {
+			switch callee.Name() {
+			case "Mod", "Remainder":
+				if _, ok := y.Call.Args[1].(*ssa.Const); ok {
+					return "the operand is math." + callee.Name() + "(x, constant): bounded by the modulus"
+				}
+			case "Floor", "Ceil", "Trunc", "Round", "Abs":
+				if how := floatInRange(fn, y.Call.Args[0], at, d+1, bounded); how != "" {
+					return how
+				}
+				if bounded(fn, y.Call.Args[0], at, true) && bounded(fn, y.Call.Args[0], at, false) {
+					return "a two-sided range test on the argument of math." + callee.Name() + " dominates the conversion"
+				}
+			}
+		}
+	case *ssa.Phi:
+		// leaf-wise: every incoming value is in range by construction, or was range-tested on the edge it comes in by
+		for i, e := range y.Edges {
+			if floatInRange(fn, e, at, d+1, bounded) != "" {
+				continue
+			}
+			pred := y.Block().Preds[i]
+			last := pred.Instrs[len(pred.Instrs)-1]
+			if bounded(fn, e, last, true) && bounded(fn, e, last, false) {
+				continue
+			}
+			return ""
+		}
+		return "every incoming value is a constant, in range by construction, or range-tested on its edge"
+	}
+	return ""
+}
+
+// roundTripTested: the integer is converted back to float64 and compared with the original - out-of-range values
+// (whose conversion result is arbitrary) fail the comparison.
+func roundTripTested(conv *ssa.Convert) bool {
+	for _, ref := range *conv.Referrers() {
+		back, ok := ref.(*ssa.Convert)
+		if !ok {
+			continue
+		}
+		if fb, ok := back.Type().Underlying().(*types.Basic); !ok || fb.Kind() != types.Float64 {
+			continue
+		}
+		for _, r2 := range *back.Referrers() {
+			if bo, ok := r2.(*ssa.BinOp); ok && (bo.Op == token.NEQ || bo.Op == token.EQL) && (bo.X == conv.X || bo.Y == conv.X) {
+				return true
+			}
+		}
+	}
+	return false
+}
+
+// clippedParameter: v is (floor/ceil/quotient by a constant >= 1 of) a float64 parameter of fn, fn is called only
+// statically, and every caller passes the result of a clipping function - a one-parameter function that returns its
+// argument only where a two-sided range test holds and NaN otherwise. The conversion then sees a value within the
+// clipped range or NaN; for NaN the converted integer is arbitrary but in range of nothing the callers keep (the
+// callers of this package discard it when the NaN is detected), so no out-of-range finite value reaches it.
+func clippedParameter(c *Ctx, fn *ssa.Function, v ssa.Value, bounded func(*ssa.Function, ssa.Value, ssa.Instruction, bool) bool) string {
+	for i := 0; i < 4; i++ {
+		switch y := v.(type) {
+		case *ssa.Call:
+			if callee := y.Call.StaticCallee(); callee != nil && callee.Pkg != nil && callee.Pkg.Pkg.Path() == "math" {
+				switch callee.Name() {
+				case "Floor", "Ceil", "Trunc":
+					v = y.Call.Args[0]
+					continue
+				}
+			}
+		case *ssa.BinOp:
+			if y.Op == token.QUO {
+				if k, ok := y.Y.(*ssa.Const); ok && k.Value != nil {
+					if f, _ := constantFloat(k); f >= 1 {
+						v = y.X
+						continue
+					}
+				}
+			}
+		}
+		break
+	}
+	p, ok := v.(*ssa.Parameter)
+	if !ok || fn.Parent() != nil {
+		return ""
+	}
+	idx := -1
+	for i, q := range fn.Params {
+		if q == p {
+			idx = i
+		}
+	}
+	isClipper := func(g *ssa.Function) bool {
+		if g == nil || len(g.Params) != 1 || len(g.Blocks) == 0 {
+			return false
+		}
+		n := 0
+		for _, b := range g.Blocks {
+			ret, ok := b.Instrs[len(b.Instrs)-1].(*ssa.Return)
+			if !ok || len(ret.Results) != 1 {
+				continue
+			}
+			n++
+			switch rv := ret.Results[0].(type) {
+			case *ssa.Call:
+				if cal := rv.Call.StaticCallee(); cal == nil || cal.Pkg == nil || cal.Pkg.Pkg.Path() != "math" || cal.Name() != "NaN" {
+					return false
+				}
+			case *ssa.Parameter:
+				if !(bounded(g, rv, ret, true) && bounded(g, rv, ret, false)) {
+					return false
+				}
+			default:
+				return false
+			}
+		}
+		return n > 0
+	}
+	nCallers := 0
+	for _, f := range c.AllSrcFuncs("") {
+		for _, b := range f.Blocks {
+			for _, ins := range b.Instrs {
+				for _, op := range ins.Operands(nil) {
+					if *op != ssa.Value(fn) {
+						continue
+					}
+					ci, isCall := ins.(ssa.CallInstruction)
+					if !isCall || ci.Common().Value != ssa.Value(fn) {
+						return "" // value taken
+					}
+					nCallers++
+					arg, ok := ci.Common().Args[idx].(*ssa.Call)
+					if !ok || !isClipper(arg.Call.StaticCallee()) {
+						return ""
+					}
+				}
+			}
+		}
+	}
+	if nCallers == 0 {
+		return ""
+	}
+	return fmt.Sprintf("the operand is parameter %d of %s, and each of its %d call sites passes the result of a clipping function (two-sided range test, NaN otherwise)", idx, ssaFuncName(fn), nCallers)
+}
+
+func constantFloat(k *ssa.Const) (float64, bool) {
+	if k.Value == nil {
+		return 0, false
+	}
+	f, ok := constant.Float64Val(constant.ToFloat(k.Value))
+	return f, ok
 }
